@@ -236,8 +236,9 @@ class RawMeshData:
                         (v3,v4,v8,v7)
                     ]
                 for face in faces_C:
-                    self.cell_faces._elem.append(face_id[utils.keyify(face)])
-                    if nca!=0: 
+                    if nce==0:
+                        self.cell_faces._elem.append(face_id[utils.keyify(face)])
+                    if nca==0: 
                         self.cell_faces._adj.append(iC)
 
     def _complete_edges_from_faces(self):
